@@ -28,7 +28,7 @@ out.append("")
 # seeded changes
 runs = [json.loads(l) for l in open(f"{V}/seeded/results.jsonl") if l.strip()]
 out.append("## 16. Seeded property-breaking changes and which checks catch them\n")
-out.append("Each change was written by a fresh sub-agent that was given only the text of one property and a scratch worktree (prompt: `seeded/PROMPT.tmpl`), with a demonstration test that fails with the change and passes without it; each was confirmed in a scratch worktree (`bin/mutconfirm`: demo passes on the clean tree, fails with the patch, the touched packages' existing tests pass with the patch) and then run against the quick check (`bin/mutcheck`: `git apply` to /repo, check, `git checkout -- .`). 'first run' is the verdict of the check as it was when the change arrived; a MISSED there led to the strengthening named in `seeded/<id>/meta.json` (`check_runs`) and in section 13/14; 'final' is the verdict of the committed check. None of the changes is committed to /repo.\n")
+out.append("Each change was written by a fresh sub-agent that was given only the text of one property and a scratch worktree (prompt: `seeded/PROMPT.tmpl`), with a demonstration test that fails with the change and passes without it; each was confirmed in a scratch worktree (`bin/mutconfirm`: demo passes on the clean tree, fails with the patch, the touched packages' existing tests pass with the patch) and then run against the quick check (`bin/mutcheck`: `git apply` to /repo, check, `git checkout -- .`). 'first run' is the verdict of the check as it was when the change arrived; a MISSED there led to the strengthening named in `seeded/<id>/meta.json` (`check_runs`) and in section 13/14; 'final' is the verdict of the committed check. None of the changes is committed to /repo. Ids -a/-b are waves 1-2, -c/-d wave 3, -g/-h wave 5 (confirmed and checked with `bin/mutpar`, the parallel form of the same procedure in scratch worktrees; a change that lives in another property's territory was also run against that property's check, shown in brackets); the patch files of wave 4 (-e/-f) were lost with the scratch area and only their verdicts remain in `seeded/results.jsonl` (section 17). `seeded/<id>/meta.json` carries a `judgement` where a change is invalid, unreachable or a repeat of an earlier one.\n")
 out.append("| change | file(s) changed | what it breaks | first run | final | detecting invariant |")
 out.append("|---|---|---|---|---|---|")
 for d in sorted(glob.glob(f"{V}/seeded/C*/")):
